@@ -30,10 +30,24 @@ func init() { hx.Register("C08", Run, Replay) }
 type mat [6]*big.Rat
 
 type op struct {
-	K    string     // q Q cm BT ET Tf Tm Td TD T* TL Tc Tw Tz Tj ' " Do L
-	N    []*big.Rat // numeric operands
-	Sid  int        // string id of a show
-	Form *form      // Do
+	K     string     // q Q cm BT ET Tf Tm Td TD T* TL Tc Tw Tz Ts Tj TJ ' " Do L
+	N     []*big.Rat // numeric operands
+	Sid   int        // string id of a show
+	Form  *form      // Do
+	Items []item     // TJ
+}
+
+// item: one element of a TJ array — a string (Num == nil) or a number.
+type item struct {
+	Sid int
+	Num *big.Rat
+}
+
+func (it item) token() string {
+	if it.Num == nil {
+		return fmt.Sprintf("s%d", it.Sid)
+	}
+	return "n" + wnum(it.Num)
 }
 
 type form struct {
@@ -76,6 +90,16 @@ func tokens(p []op) []string {
 			out = append(out, fmt.Sprintf("%s:%d", o.K, o.Sid))
 		case "\"":
 			out = append(out, fmt.Sprintf("\":%s,%d", wnums(o.N), o.Sid))
+		case "TJ":
+			if len(o.Items) == 0 {
+				out = append(out, "TJ:e")
+				break
+			}
+			parts := make([]string, len(o.Items))
+			for i, it := range o.Items {
+				parts[i] = it.token()
+			}
+			out = append(out, "TJ:"+strings.Join(parts, ","))
 		case "Do":
 			if o.Form.M != nil {
 				out = append(out, "Do:"+wnums(o.Form.M[:])+"[")
@@ -120,6 +144,25 @@ func parseTokens(ts []string) ([]op, []string, error) {
 		}
 		k, v, has := strings.Cut(t, ":")
 		o := op{K: k}
+		if k == "TJ" {
+			if v != "e" && v != "" {
+				for _, f := range strings.Split(v, ",") {
+					if strings.HasPrefix(f, "s") {
+						n, err := strconv.Atoi(f[1:])
+						if err != nil {
+							return nil, nil, fmt.Errorf("bad token %q", t)
+						}
+						o.Items = append(o.Items, item{Sid: n})
+					} else if r, ok := new(big.Rat).SetString(strings.TrimPrefix(f, "n")); ok && strings.HasPrefix(f, "n") {
+						o.Items = append(o.Items, item{Num: r})
+					} else {
+						return nil, nil, fmt.Errorf("bad token %q", t)
+					}
+				}
+			}
+			out = append(out, o)
+			continue
+		}
 		if has {
 			ns, err := parseNums(v)
 			if err != nil {
@@ -164,7 +207,43 @@ func exactDec(r *big.Rat) string {
 // pdf number / expected value: exact decimal
 func pnum(r *big.Rat) string { return exactDec(r) }
 
-func showString(sid int) string { return fmt.Sprintf("s%d x", sid) }
+// showString: the text of string id sid.  Ids below 1000 are "s<id> x" (one space); the
+// programs of op c08.tx use ids from 1000 on, whose texts differ in length and in the
+// number of spaces (0 to 4), so that Tc and Tw act differently on them.
+func showString(sid int) string {
+	if sid >= 1000 {
+		switch sid % 5 {
+		case 0:
+			return fmt.Sprintf("w%d", sid)
+		case 1:
+			return fmt.Sprintf("a b%d", sid)
+		case 2:
+			return fmt.Sprintf(" %d  i ", sid)
+		case 3:
+			return fmt.Sprintf("Wide MW %d", sid)
+		default:
+			return fmt.Sprintf("l.i %d i.l", sid)
+		}
+	}
+	return fmt.Sprintf("s%d x", sid)
+}
+
+func tjArray(items []item) string {
+	var sb strings.Builder
+	sb.WriteString("[")
+	for i, it := range items {
+		if i > 0 {
+			sb.WriteString(" ")
+		}
+		if it.Num == nil {
+			sb.WriteString("(" + showString(it.Sid) + ")")
+		} else {
+			sb.WriteString(pnum(it.Num))
+		}
+	}
+	sb.WriteString("]")
+	return sb.String()
+}
 
 // matrixArray is the /Matrix entry of a form dictionary (integers and reals mixed, as
 // producers write them).
@@ -196,6 +275,8 @@ func renderWith(p []op, do func(f *form) string) []byte {
 			sb.WriteString("(" + showString(o.Sid) + ") " + o.K)
 		case "\"":
 			sb.WriteString(pnum(o.N[0]) + " " + pnum(o.N[1]) + " (" + showString(o.Sid) + ") \"")
+		case "TJ":
+			sb.WriteString(tjArray(o.Items) + " TJ")
 		case "Do":
 			sb.WriteString("/" + do(o.Form) + " Do")
 		case "L":
@@ -251,6 +332,16 @@ func operations(p []op, forms map[string]*core.Stream) []contentstream.Operation
 			ops = []core.Object{core.String(showString(o.Sid))}
 		case "\"":
 			ops = []core.Object{num(o.N[0]), num(o.N[1]), core.String(showString(o.Sid))}
+		case "TJ":
+			arr := core.Array{}
+			for _, it := range o.Items {
+				if it.Num == nil {
+					arr = append(arr, core.String(showString(it.Sid)))
+				} else {
+					arr = append(arr, num(it.Num))
+				}
+			}
+			ops = []core.Object{arr}
 		case "Do":
 			before := len(forms)
 			render([]op{o}, forms)
@@ -334,6 +425,14 @@ func repeatsShow(p []op) bool {
 					return true
 				}
 				seen[x.Sid] = true
+			}
+			for _, it := range x.Items {
+				if it.Num == nil {
+					if seen[it.Sid] {
+						return true
+					}
+					seen[it.Sid] = true
+				}
 			}
 			if x.K == "Do" && walk(x.Form.Body) {
 				return true
@@ -688,7 +787,16 @@ func Run(c *hx.Ctx) {
 		"missing or of a wrong type at both levels, /Matrix well-formed or malformed, contents of positioned shows, cm, q/Q (mostly balanced), Do and " +
 		"malformed operations (wrong arity, wrong operand types, unknown operators), 1-4 Extract calls on one extractor, one q…Q program run twice, " +
 		"and heavy graphs (self-drawing forms with fan-out 4-8, chains of 10 with fan-out 3-10, mutual recursion, forms of 5-30 MiB, the byte-exact " +
-		"budget boundary); integer monomial matrices under 0 Tz, so every origin and size is exact; non-trivial there = at least one form executed."
+		"budget boundary); integer monomial matrices under 0 Tz, so every origin and size is exact; non-trivial there = at least one form executed. " +
+		"The random programs and the documents also show text with TJ arrays (strings and numbers), the documents also set the text rise (Ts). " +
+		"ADVANCES (op c08.tx): text objects of several lines in which strings follow one another through Tj, TJ (numbers before, between and after " +
+		"the strings), ' and \" with Tc, Tw, Tz, Tf, Ts, Td, TD, T*, Tm, cm and q/Q in between, under upright, scaled, rotated and sheared text " +
+		"matrices, with a font (Helvetica widths) and without (tabula's width estimate); font sizes multiples of 125, Tz multiples of 25, the " +
+		"other numbers multiples of 1/4; EVERY origin is compared. PATHS (op c08.path): content streams of q Q cm w, m l c v y h re and " +
+		"S s f F f* B B* b b* n for graphicsstate.GraphicsExtractor: rectangles by re and by m l l l (closed by h, by a line, left open; a corner " +
+		"moved, sheared, turned by 45°), free paths with curves, several subpaths, operators without a current point, graphics state operators " +
+		"inside a path, malformed operations (arity, operand types), colour and unknown operators, unmatched Q; coordinates multiples of 1/4; " +
+		"every line, rectangle, flag, box, filter count, the error and the stack depth are compared. Non-trivial there = something was reported."
 	if !quoteParses {
 		c.Note("the pinned content-stream parser rejects the ' and \" operators (DESIGN §7 B3, owned by C06): programs containing them are fed to text.Extractor.Extract as parsed operations")
 	}
@@ -728,6 +836,8 @@ func Run(c *hx.Ctx) {
 	for i := 0; i < c.N(40, 400); i++ {
 		checkAdvance(c, c.Rng.Fork(uint64(3<<32+i)))
 	}
+	runAdv(c)
+	runPaths(c)
 	runDocs(c)
 	c.Rep.Exhaustive = false
 }
@@ -742,12 +852,20 @@ func Replay(c *hx.Ctx, k map[string]interface{}) {
 		fmt.Printf("replayed %s document #%d\n", fam, int(idx))
 		return
 	}
+	if strings.HasPrefix(fam, "path") {
+		cs, _ := k["content_stream"].(string)
+		checkPath(c, fam, cs, nil)
+		fmt.Printf("replayed %s content stream: %q\n", fam, cs)
+		return
+	}
 	p, _, err := parseTokens(strings.Fields(prog))
 	if err != nil {
 		fmt.Println("replay: cannot parse program:", err)
 		return
 	}
 	switch {
+	case strings.HasPrefix(fam, "adv-"):
+		checkAdv(c, fam, p)
 	case fam == "dquote":
 		// ctx … ":aw,ac,1 Tj:2
 		n := len(p)
